@@ -285,9 +285,14 @@ class Evaluator:
                 self.exec_block(st.orelse, env)
             return
         if isinstance(st, ast.Try):
+            before = dict(env)
             try:
                 self.exec_block(st.body, env)
             except AbsRaise as r:
+                # what the failed attempt re-bound before it failed stays re-bound for the handler and everything after it
+                for k_, v_ in before.items():
+                    if k_ in env and env[k_] is not v_ and env[k_] != v_:
+                        self.trace.append(('leak', k_, v_, env[k_], r.exc))
                 for h in st.handlers:
                     names = None if h.type is None else [getattr(x, 'id', getattr(x, 'attr', '?')) for x in
                                                          (h.type.elts if isinstance(h.type, ast.Tuple) else [h.type])]
